@@ -1,6 +1,7 @@
-(* C09 - names resolve lexically; undeclared names are rejected before anything runs. Property theorems only (proofs in proofs/SymbolsProofs.v; specification in spec/ScopeSpec.v): the symbol table of symbols.rs implements the documented lookup for ALL tables and names. *)
-From NL.Spec Require Import ScopeSpec.
-From NL.Proofs Require SymbolsProofs.
+(* C09 - names resolve lexically; undeclared names are rejected before anything runs. Property theorems only; whole-compiler theorems in proofs/CompilerNames.v (proofs in proofs/SymbolsProofs.v; specification in spec/ScopeSpec.v): the symbol table of symbols.rs implements the documented lookup for ALL tables and names. *)
+From NL.Model Require Import Pipeline.
+From NL.Spec Require Import ScopeSpec Sem.
+From NL.Proofs Require SymbolsProofs CompilerNames.
 Local Open Scope nat_scope.
 
 (* resolve IS the documented lookup: last occurrence in the flattened current context (innermost scope first, latest declaration first), then the global context - for every table, no hypothesis *)
@@ -63,6 +64,34 @@ Proof. exact SymbolsProofs.define_rename. Qed.
 Theorem rollback_after_open_body : forall (t : symtab) (ops : list sop), top_level t -> wf_tab t -> open_body ops -> forall x : text, resolve (rollback (run_ops t ops) (checkpoint t)) x = resolve t x.
 Proof. exact SymbolsProofs.rollback_after_open_body. Qed.
 
+(* WHOLE COMPILER, consistent renaming: renaming a variable to a fresh name gives byte-identical bytecode (same code, same constants, same error) for EVERY program *)
+Theorem compile_rename_fresh : forall (a b : list cp) (p : block), a <> [] -> b <> [] -> is_builtin_name a = false -> is_builtin_name b = false -> ~ In b (CompilerNames.names_block p) -> compile (CompilerNames.rename_block (CompilerNames.subst_name a b) p) = compile p.
+Proof. exact CompilerNames.compile_rename_fresh. Qed.
+
+(* ... for every injective renaming that keeps builtin call heads and the anonymous name apart *)
+Theorem compile_alpha : forall r : text -> text, (forall a b : text, r a = r b -> a = b) -> (forall x : list cp, x <> [] -> r x <> []) -> (forall x : text, is_builtin_name x = false -> is_builtin_name (r x) = false) -> forall b : block, compile (CompilerNames.rename_block r b) = compile b.
+Proof. exact CompilerNames.compile_alpha. Qed.
+
+(* ... hence the same evaluation *)
+Theorem eval_rename_fresh : forall (u : unicode) (orc : oracle) (src1 src2 : text) (ast : block) (budget : nat) (a b : list cp), a <> [] -> b <> [] -> is_builtin_name a = false -> is_builtin_name b = false -> ~ In b (CompilerNames.names_block ast) -> parse u (parse_float orc) src1 = Ok ast -> parse u (parse_float orc) src2 = Ok (CompilerNames.rename_block (CompilerNames.subst_name a b) ast) -> eval u orc src2 budget = eval u orc src1 budget.
+Proof. exact CompilerNames.eval_rename_fresh. Qed.
+
+(* every program the compiler accepts is lexically well-scoped: each name resolves to a textually preceding visible declaration, stop/volgende sit in a loop of the same function, antwoord in a function (static pass of the definitional semantics; named function literals as whole statements, 4.3 item 13) *)
+Theorem accepted_scoped : forall (b : block) (bc : bytecode) (fuel : nat), CompilerNames.fn_ok_block b = true -> (CompilerNames.bsize b <= fuel)%nat -> compile b = Ok bc -> static_check fuel b = None.
+Proof. exact CompilerNames.accepted_scoped. Qed.
+
+(* a program that uses an undeclared name ANYWHERE (dead code included) is never accepted *)
+Theorem undeclared_rejected : forall (b : block) (fuel : nat) (k : errkind), CompilerNames.fn_ok_block b = true -> (CompilerNames.bsize b <= fuel)%nat -> static_check fuel b = Some k -> forall bc : bytecode, compile b <> Ok bc.
+Proof. exact CompilerNames.undeclared_rejected. Qed.
+
+(* ... and is rejected before anything runs: eval returns the front-end error, no instruction executes, no output *)
+Theorem undeclared_never_runs : forall (u : unicode) (orc : oracle) (src : text) (budget : nat) (ast : block) (fuel : nat) (k : errkind), parse u (parse_float orc) src = Ok ast -> CompilerNames.fn_ok_block ast = true -> (CompilerNames.bsize ast <= fuel)%nat -> static_check fuel ast = Some k -> eval u orc src budget = FrontError (compile ast) /\ (forall bc : bytecode, compile ast <> Ok bc).
+Proof. exact CompilerNames.undeclared_never_runs. Qed.
+
+(* a reference error of the compiler is exactly an undeclared name of the static pass *)
+Theorem reference_error_exact : forall (b : block) (fuel : nat), CompilerNames.fn_ok_block b = true -> (CompilerNames.bsize b <= fuel)%nat -> compile b = Err EReferenceError -> static_check fuel b = Some EReferenceError.
+Proof. exact CompilerNames.reference_error_exact. Qed.
+
 Example nonvacuous : wf_tab symtab_new /\ body [OpDefine [120%N]; OpEnter; OpDefine [121%N]; OpNewCtx; OpDefine [97%N]; OpLeaveCtx; OpLeave; OpDefine [121%N]].
 Proof. split; [exact SymbolsProofs.wf_symtab_new | exact SymbolsProofs.ex_body]. Qed.
 Print Assumptions resolve_refines_lookup_all.
@@ -80,3 +109,10 @@ Print Assumptions resolve_None.
 Print Assumptions resolve_rename.
 Print Assumptions define_rename.
 Print Assumptions rollback_after_open_body.
+Print Assumptions compile_rename_fresh.
+Print Assumptions compile_alpha.
+Print Assumptions eval_rename_fresh.
+Print Assumptions accepted_scoped.
+Print Assumptions undeclared_rejected.
+Print Assumptions undeclared_never_runs.
+Print Assumptions reference_error_exact.
